@@ -74,16 +74,15 @@ impl JsonConverter {
                 serde_json::Value::Number(n)
             }
             &Val::Int(i) => {
-                let n = match serde_json::Number::from_f64(i as f64) {
-                    Some(n) => n,
-                    None => {
-                        return Err(std::io::Error::new(
-                            std::io::ErrorKind::InvalidData,
-                            format!("Float is too large or Not a Number {}", i),
-                        ));
-                    }
+                // Integers are written in float form (42.0) as long as that is
+                // lossless. Beyond 2^53 only the integer form keeps the value.
+                let f = i as f64;
+                let n = if f as i128 == i as i128 {
+                    serde_json::Number::from_f64(f)
+                } else {
+                    None
                 };
-                serde_json::Value::Number(n)
+                serde_json::Value::Number(n.unwrap_or_else(|| serde_json::Number::from(i)))
             }
             Val::Str(s) => serde_json::Value::String(s.to_string()),
             Val::Env(fs) => self.convert_env(fs)?,
